@@ -135,6 +135,13 @@ type SeqStats struct {
 	Cut         bool `json:"cut,omitempty"`
 }
 
+// SeqFullDepth: histories up to this length are all extended, whether or not their canonical state
+// was seen before.  The canonical key is computed from the reference model and what the harness can
+// observe of the implementation; an implementation may carry state the key does not show (a cached
+// value, a remembered request), and merging two histories that differ in it would hide a defect
+// that needs that state.  Below this depth the search is a complete tree.
+var SeqFullDepth = 2
+
 // DriveSeq runs the BFS for configuration cfg to the given depth (master side).
 func DriveSeq(c *Ctx, kind string, cfg, alphabet, depth int) SeqStats {
 	st := SeqStats{}
@@ -163,9 +170,12 @@ func DriveSeq(c *Ctx, kind string, cfg, alphabet, depth int) SeqStats {
 				st.Transitions += r.Execs
 				st.Evals += sr.Evals
 				for _, s := range sr.Succ {
-					if !seen[s.Key] {
+					isNew := !seen[s.Key]
+					if isNew {
 						seen[s.Key] = true
 						st.States++
+					}
+					if isNew || len(h)+1 <= SeqFullDepth {
 						next = append(next, append(append([]int{}, h...), s.Op))
 					}
 				}
